@@ -33,7 +33,7 @@ class CHECK(Check):
             "a write of generated data (must be reproduced exactly); (b) 0-12 lines from the C04 grammar with perturbations "
             "(extra precision, odd spacing, '+' signs, right-aligned literals, trailing garbage, comments, blank lines, "
             "missing final newline). Precondition 'parsed values fit their fields' is evaluated per case by the model "
-            "(others counted and skipped). Observed: y = write(read(x)) and write(read(y)). non-trivial = x contains a "
+            "(others counted and skipped). A ninth of the cycles go through files on disk with the file class's declared encoding (utf-8 / latin-1 / cp1252). Observed: y = write(read(x)) and write(read(y)). non-trivial = x contains a "
             "typed line that is not already canonical (y != x) or a default line between typed lines; distinct = hash")
 
     def gen(self, tier, rng):
@@ -59,17 +59,40 @@ class CHECK(Check):
         return buf.getvalue()
 
     def impl(self, case):
+        import os, hashlib
         regs = [reglib.mk_register_class(rd, i) for i, rd in enumerate(case["regdefs"])]
-        F = reglib.mk_file_class(regs)
+        h = int(hashlib.sha1(repr(case).encode()).hexdigest(), 16)
+        enc = ["utf-8", "latin-1", "cp1252"][h % 3]
+        F = reglib.mk_file_class(regs, encoding=enc)
         try:
             with lib.budget(400000):
                 x = self.content_of(case, regs, F)
-                b1 = io.StringIO()
-                F.read(x).write(b1)
-                y = b1.getvalue()
-                b2 = io.StringIO()
-                F.read(y).write(b2)
-                y2 = b2.getvalue()
+                via_disk = (h // 3) % 3 == 0 and x and "\r" not in x and "\x0c" not in x
+                if via_disk:
+                    try:
+                        x.encode(enc)
+                    except UnicodeEncodeError:
+                        via_disk = False
+                if via_disk:
+                    # the same cycle through files on disk, with the file class's declared encoding
+                    d = os.path.join(lib.SCRATCH, "tmp_c06")
+                    os.makedirs(d, exist_ok=True)
+                    p0, p1, p2 = (os.path.join(d, n) for n in ("x.txt", "y.txt", "y2.txt"))
+                    with open(p0, "w", encoding=enc, newline="") as fh:
+                        fh.write(x)
+                    F.read(p0).write(p1)
+                    F.read(p1).write(p2)
+                    with open(p1, "rb") as fh:
+                        y = fh.read().decode(enc)
+                    with open(p2, "rb") as fh:
+                        y2 = fh.read().decode(enc)
+                else:
+                    b1 = io.StringIO()
+                    F.read(x).write(b1)
+                    y = b1.getvalue()
+                    b2 = io.StringIO()
+                    F.read(y).write(b2)
+                    y2 = b2.getvalue()
         except lib.BudgetExceeded:
             return {"raised": "BudgetExceeded"}
         except OverflowError:
